@@ -5,6 +5,7 @@
 //! input distribution).
 mod c17;
 mod common;
+mod dict;
 
 use common::*;
 
